@@ -93,7 +93,7 @@ def _seq(V, origin):
 
 
 for _o in ('list', 'tuple', 'optional-list', 'union-list', 'optional-tuple'):
-    ob('seq/' + _o, marks=['offender', 'clean'], budget=(60, 900),
+    ob('seq/' + _o, marks=['offender', 'clean'], budget=(60, 400), exhaustive=(True, False),
        bounds='%s (optional-: Optional[...], union-: Union[..., Dict[int, E]]) of n <= 3 (4 thorough) elements, each a solver int in -4..4 | "x" | "5" (thorough: also "-9", None); element type '
               'Rule[int](ge=a), a in -2..2 symbolic; invalid_items policy solver-picked' % _o,
        out='longer sequences; nested containers (see nested/*)')((lambda o: lambda V: _seq(V, o))(_o))
@@ -131,7 +131,7 @@ def _set(V, origin):
 
 
 for _o in ('set', 'frozenset'):
-    ob('set/' + _o, marks=['offender', 'clean'], budget=(60, 900),
+    ob('set/' + _o, marks=['offender', 'clean'], budget=(60, 400), exhaustive=(True, False),
        bounds='%s built from n <= 3 (4 thorough) elements as for seq, given either as a %s or as a list' % (_o, _o),
        out='as seq')((lambda o: lambda V: _set(V, o))(_o))
 
@@ -189,7 +189,7 @@ def _map(V, kp):
 
 
 for _kp in POLICIES:
-    ob('map/keys-' + _kp, marks=['offender', 'clean'], budget=(90, 900),
+    ob('map/keys-' + _kp, marks=['offender', 'clean'], budget=(90, 400), exhaustive=(True, False),
        bounds='Dict[IntGe, IntGe] with n <= 2 (3 thorough) entries, keys picked from {3,-3,"x","5"} (thorough: also 0, 1), '
               'values solver int -4..4 | "x" | "5"; invalid_keys=%s, invalid_values policy solver-picked' % _kp,
        out='nested mappings')((lambda kp: lambda V: _map(V, kp))(_kp))
@@ -426,7 +426,7 @@ def var_args(V):
 
 
 # ------------------------------------------------------------------ nested containers
-@ob('nested/list-of-list', marks=['offender', 'clean'], budget=(150, 900),
+@ob('nested/list-of-list', marks=['offender', 'clean'], budget=(150, 400), exhaustive=(True, False),
     bounds='List[List[IntGe]] with <= 2 inner lists of <= 2 elements; the policy applies at both levels: an inner list '
            'is an offender only under throw', out='deeper nesting')
 def nested(V):
